@@ -219,3 +219,35 @@ func vLemmaIndexAtChunk(off int32) {
 	vAssert("chunk-min", r.IndexAtChunk() == uint32(off)-ChunkAt(uint32(off)).Min())
 	vAssert("index", r.Index() == uint32(off))
 }
+
+// The commit id counter (C15): every call returns the incremented counter, so ids are distinct and increasing.
+//
+//@ lemma props=C15,C08
+func vLemmaNext() {
+	before := id
+	vAssume(before < 1<<63)
+	a := Next()
+	b := Next()
+	vAssert("fresh-increasing", a == before+1 && b == a+1 && id == b && a != 0)
+}
+
+// Commit.Clone (C15, C06): the clone carries the id and the block, holds a deep copy of exactly the non-empty buffers.
+//
+//@ lemma props=C15,C06
+func vLemmaCommitClone(idv uint64, chunk Chunk, b0 *Buffer) {
+	vAssume(b0 != nil)
+	c := &Commit{ID: idv, Chunk: chunk, Updates: []*Buffer{b0}}
+	cl := c.Clone()
+	vAssert("id-copied", cl.ID == idv)
+	vAssert("chunk-copied", cl.Chunk == chunk)
+	if len(b0.buffer) > 0 {
+		vAssert("one-buffer", len(cl.Updates) == 1 && cl.Updates[0] != b0)
+		nb := cl.Updates[0]
+		vAssert("deep-equal", nb.Column == b0.Column && nb.last == b0.last && nb.chunk == b0.chunk && len(nb.buffer) == len(b0.buffer) && len(nb.chunks) == len(b0.chunks))
+		vAssert("bytes-equal", vForall(0, len(b0.buffer), func(i int) bool { return nb.buffer[i] == b0.buffer[i] }))
+		vAssert("headers-equal", vForall(0, len(b0.chunks), func(i int) bool { return nb.chunks[i] == b0.chunks[i] }))
+		vAssert("fresh-storage", vSeparate(nb.buffer, b0.buffer))
+	} else {
+		vAssert("empty-skipped", len(cl.Updates) == 0)
+	}
+}
